@@ -3,9 +3,9 @@ package gen
 import (
 	"math"
 	"math/big"
-	"strings"
 	"regexp"
 	"strconv"
+	"strings"
 )
 
 var numPool = []float64{0, 1, 2, 3, -1, 1.5, 10, 100, -0.5, 1e21, 1e-7, 123456789, 2}
@@ -711,13 +711,59 @@ func Trim(d *DNode, budget int) *DNode {
 	return d
 }
 
-// Doc draws a document for p: 72 % path-directed, 28 % free; at most MaxDocNodes nodes.
+// Doc draws a document for p: 72 % path-directed, 28 % free; at most MaxDocNodes nodes - except
+// that one document in 250 gets one of its arrays stretched beyond a thousand elements.
 func (g *G) Doc(p *Path) *DNode {
+	var d *DNode
 	if g.chance("directed", 72) {
-		return Trim(g.DocFor(p), MaxDocNodes)
+		d = Trim(g.DocFor(p), MaxDocNodes)
+	} else {
+		g.DocKind = "free"
+		d = Trim(g.FreeDoc(4), MaxDocNodes)
 	}
-	g.DocKind = "free"
-	return Trim(g.FreeDoc(4), MaxDocNodes)
+	if !g.O.NoDeepDocs && (g.recs == 0 || (g.recs == 1 && !p.HasFilter())) && Uniform(g.T, "stretch", 250) == 0 {
+		d = g.Stretch(d)
+	}
+	return d
+}
+
+// Stretch repeats the elements of one non-empty array of d (the first in pre-order whose elements
+// are small) until it has 1025..1104 of them: sizes at which block-wise traversals, pooled
+// buffers and index tables meet their limits.
+func (g *G) Stretch(d *DNode) *DNode {
+	d = d.Clone()
+	var target *DNode
+	var walk func(n *DNode)
+	walk = func(n *DNode) {
+		if target != nil {
+			return
+		}
+		if n.K == DArr && len(n.Kids) > 0 {
+			small := true
+			for _, k := range n.Kids {
+				if k.Size() > 4 {
+					small = false
+				}
+			}
+			if small {
+				target = n
+				return
+			}
+		}
+		for _, k := range n.Kids {
+			walk(k)
+		}
+	}
+	walk(d)
+	if target == nil {
+		return d
+	}
+	want := 1025 + g.intn("stretchlen", 80)
+	base := len(target.Kids)
+	for i := base; i < want; i++ {
+		target.Kids = append(target.Kids, target.Kids[i%base].Clone())
+	}
+	return d
 }
 
 // Opaquify replaces a random non-empty subset of leaves (and sometimes whole
